@@ -125,6 +125,8 @@ namespace plan
       g_rel(r, op, K);
       g_rel(r, op, K);
     }
+    else if (name == "epin")
+      op.a = {static_cast<long>(r.below(3)), static_cast<long>(r.below(4)), static_cast<long>(r.below(42)), static_cast<long>(r.below(4))};
     else if (name == "ublock")
       op.a = {static_cast<long>(r.below(4)), r.range(-5, 6), static_cast<long>(r.below(7)), static_cast<long>(r.below(5)), static_cast<long>(r.below(4)), static_cast<long>(r.below(3)), static_cast<long>(r.below(2))};
     else if (name == "blockade")
@@ -132,7 +134,7 @@ namespace plan
     else if (name == "touch")
       op.a = {static_cast<long>(r.below(6)), static_cast<long>(r.below(6)), static_cast<long>(r.chance(3, 4) ? 1 : r.below(4))};
     else if (name == "pin")
-      op.a = {static_cast<long>(r.below(6)), static_cast<long>(r.below(5)), static_cast<long>(r.below(3)), static_cast<long>(r.below(96))};
+      op.a = {static_cast<long>(r.below(6)), static_cast<long>(r.below(5)), static_cast<long>(r.below(3)), static_cast<long>(r.below(192))}; // >= 96: the loose disjunct is indirect
     else if (name == "opred")
       op.a = {static_cast<long>(r.below(4)), static_cast<long>(r.below(3)), static_cast<long>(r.below(2))};
     else if (name == "spred")
@@ -407,6 +409,8 @@ namespace plan
         ops.push_back(g_op(g, g.chance(1, 6) ? "r_logic" : (g.chance(1, 8) ? "r_mul" : (g.chance(1, 2) ? "r_rel" : "r_goal"))));
     if ((prop == "C02" || prop == "C03") && Rng(seed).derive("ublock").chance(1, prop == "C02" ? 4 : 6))
       ops.push_back(g_op(g, "ublock")); // a block solvable by construction, through unification only (P7(b))
+    if (prop == "C19" && Rng(seed).derive("epin").chance(1, 6))
+      ops.push_back(g_op(g, "epin")); // an early-ending atom under a disjunction whose other branch needs it to end much later (indirectly)
     W w;
     const bool timeline_focus = prop == "C19" || prop == "C04" || prop == "C05" || prop == "C06";
     w.add("real", 3), w.add("bool", 2), w.add("rel", timeline_focus ? 4 : 14);
